@@ -60,6 +60,8 @@ struct V {
     /// One long deterministic history (device decisions from a fixed pseudo-random sequence)
     /// instead of explored deviations: reaches the 16-bit wrap of the ring indices.
     linear: bool,
+    /// The device suppresses notifications on the stocked queue and polls it.
+    suppress: bool,
 }
 
 thread_local! {
@@ -156,6 +158,13 @@ impl TransportVisitor for V {
         let posted0 = co.borrow_mut().held_count(q);
         if posted0 != qs {
             viol("not-stocked", format!("{} buffers posted after construction, queue size {}", posted0, qs));
+        }
+        // The device may not want to be notified about re-posted buffers (it polls the queue): it
+        // sets VIRTQ_USED_F_NO_NOTIFY, resp. an event index far ahead. What it can see in the
+        // available ring must be the same.
+        if self.suppress {
+            co.borrow_mut().suppressed = vec![q];
+            co.borrow_mut().service(q);
         }
         let mut pending: VecDeque<Ev> = VecDeque::new();
         let mut seq = 0u32;
@@ -338,6 +347,7 @@ fn run_mode(tkind: TKind, which: Which, events: usize, linear: bool) {
     let offered = feats[choose(feats.len(), "offered features")];
     let kind = which.kind();
     let w = DWorld::new(kind, tkind, offered, kind.default_config());
-    w.with_transport(V { which, events, linear });
+    let suppress = choose(2, "device suppresses notifications on the stocked queue") == 1;
+    w.with_transport(V { which, events, linear, suppress });
     mmio::set_handler(None);
 }
